@@ -413,3 +413,94 @@ Proof.
       pose proof (find_cfind _ _ _ Fx) as Hx. rewrite C1, He in Hx. inversion Hx; subst e.
       change (e_par (core bx)) with (b_par ccmd bx). rewrite C1, N1 in A. exact A.
 Qed.
+
+(** ** apply (range) *)
+Lemma path_up_length : forall (l : list (blk ccmd)) n i up, path_up ccmd l n i = Some up -> length up = n.
+Proof.
+  induction n as [|n IH]; intros i up H; cbn in H.
+  - inversion H. reflexivity.
+  - destruct (find ccmd l i) as [b|]; [|discriminate].
+    destruct (path_up ccmd l n (b_par ccmd b)) as [up'|] eqn:E; cbn in H; [|discriminate].
+    inversion H; subst. cbn. f_equal. eapply IH. exact E.
+Qed.
+Lemma linked_snoc : forall l a c x,
+    linked l c a -> (exists e, cfind l x = Some e /\ e_par e = last a c) -> linked l c (a ++ [x]).
+Proof.
+  intros l a. induction a as [|y r IH]; intros c x H Hx; cbn.
+  - split; [exact Hx|exact I].
+  - destruct H as [Hy Hr]. split; [exact Hy|]. apply IH; [exact Hr|].
+    destruct Hx as (e & He & Hp). exists e. split; [exact He|].
+    rewrite Hp. destruct r as [|z r']; [reflexivity|].
+    change (last (y :: z :: r') c) with (last (z :: r') c). apply last_cons_default.
+Qed.
+Lemma last_rev_cons : forall (t : list N) p d, last (rev (p :: t)) d = p.
+Proof. intros. cbn. apply last_last. Qed.
+
+Lemma path_up_linked : forall s n i up from,
+    path_up ccmd (blocks _ _ s) n i = Some up ->
+    (forall x bx, last up x = x -> up <> [] -> find ccmd (blocks _ _ s) (last up i) = Some bx -> True) ->
+    (exists bx, find ccmd (blocks _ _ s) (last up i) = Some bx /\ b_par _ bx = from) ->
+    up <> [] ->
+    linked (cores s) from (rev up) /\ last (rev up) from = i.
+Proof.
+  intros s n. induction n as [|n IH]; intros i up from H _ Hl Hne; cbn in H.
+  - inversion H; subst. congruence.
+  - destruct (find ccmd (blocks pstate ccmd s) i) as [b|] eqn:Fi; [|discriminate].
+    destruct (path_up ccmd (blocks pstate ccmd s) n (b_par ccmd b)) as [up'|] eqn:E; cbn in H; [|discriminate].
+    inversion H; subst up; clear H.
+    split; [|apply last_rev_cons].
+    cbn [rev]. destruct up' as [|p t].
+    + cbn. split; [|exact I]. destruct Hl as (bx & Fx & Hp). cbn in Fx. rewrite Fi in Fx. inversion Fx; subst bx.
+      exists (core b). split; [apply find_cfind; exact Fi|exact Hp].
+    + assert (Hp : p = b_par ccmd b).
+      { destruct n as [|n']; cbn in E; [discriminate|].
+        destruct (find ccmd (blocks pstate ccmd s) (b_par ccmd b)); [|discriminate].
+        destruct (path_up ccmd (blocks pstate ccmd s) n' _); cbn in E; [|discriminate]. inversion E. reflexivity. }
+      destruct (IH (b_par ccmd b) (p :: t) from E (fun _ _ _ _ _ => I)) as [L _].
+      * destruct Hl as (bx & Fx & Hpx). exists bx. split; [|exact Hpx].
+        change (last (i :: p :: t) i) with (last (p :: t) i) in Fx. rewrite (last_cons_default t p i (b_par ccmd b)) in Fx. exact Fx.
+      * discriminate.
+      * apply linked_snoc; [exact L|]. exists (core b). split; [apply find_cfind; exact Fi|].
+        rewrite last_rev_cons. symmetry. exact Hp.
+Qed.
+
+Lemma apply_arith : forall s a b s' ok,
+    wf s -> apply pstate ccmd cexec cunexec s a b = Ok (s', ok) ->
+    frame s s' /\
+    (ok = true -> Z.of_N (napp _ _ s') = Z.of_N (napp _ _ s) + (hgt (cores s) b - hgt (cores s) a) /\
+                  (a <> b -> is_act (cores s') b) /\
+                  (forall j, is_act (cores s) j -> is_act (cores s') j)) /\
+    (ok = false -> napp _ _ s' = napp _ _ s).
+Proof.
+  intros s a b s' ok W H. unfold apply in H.
+  destruct (N.eqb a b) eqn:Eab.
+  { inversion H; subst. apply N.eqb_eq in Eab. subst. split; [apply frame_refl; exact W|]. split; [|discriminate].
+    intros _. split; [lia|]. split; [congruence|auto]. }
+  apply N.eqb_neq in Eab.
+  destruct (find ccmd (blocks pstate ccmd s) a) as [bf|] eqn:Fa; [|discriminate].
+  destruct (find ccmd (blocks pstate ccmd s) b) as [bt|] eqn:Fb; [|discriminate].
+  destruct (is_failed ccmd bt).
+  { inversion H; subst. split; [apply frame_refl; exact W|]. split; [discriminate|reflexivity]. }
+  destruct (negb (Z.ltb (b_h ccmd bf) (b_h ccmd bt))) eqn:Hlt; [discriminate|].
+  apply negb_false_iff in Hlt. apply Z.ltb_lt in Hlt.
+  destruct (path_up ccmd (blocks pstate ccmd s) _ b) as [up|] eqn:Eup; [|discriminate].
+  destruct (rev up) as [|x r] eqn:Erev; [discriminate|].
+  destruct (find ccmd (blocks pstate ccmd s) x) as [bx|] eqn:Fx; [|discriminate].
+  destruct (N.eqb (b_par ccmd bx) a) eqn:Epx; [|discriminate]. apply N.eqb_eq in Epx.
+  assert (Hne : up <> []) by (intro; subst up; discriminate).
+  assert (Hlast : last up b = x).
+  { rewrite <- (rev_involutive up), Erev. cbn [rev]. apply last_last. }
+  destruct (path_up_linked s _ b up a Eup (fun _ _ _ _ _ => I)) as [L Lb].
+  { exists bx. rewrite Hlast. split; assumption. }
+  { exact Hne. }
+  rewrite Erev in L, Lb.
+  destruct (ap_arith _ _ _ _ _ a W L H) as (F & Ht & Hf).
+  split; [exact F|]. split.
+  - intros Hok. destruct (Ht Hok) as (A & B & C). split; [|split; [|exact C]].
+    + pose proof (path_up_length _ _ _ _ Eup) as Hlen.
+      assert (length (x :: r) = length up) by (rewrite <- Erev; apply rev_length).
+      rewrite H0, Hlen in A. rewrite A.
+      unfold hgt. rewrite (find_cfind _ _ _ Fa), (find_cfind _ _ _ Fb). cbn. rewrite Z2Nat.id by lia. reflexivity.
+    + intros _. rewrite <- Lb. apply B. discriminate.
+  - intros Hok. specialize (Hf Hok). lia.
+Qed.
